@@ -21,7 +21,7 @@ P = {
          "Enumerates totals, every arrival order, duplicates, invalid package numbers, interleaved transfers and segmentations through the real parser, checking exactly-one complete delivery with the right body at the right moment against a reference reassembly machine; sampled orders also over loopback TCP. Added later: slow transfers replacing abandoned ones and wide transfers (512-1100 packets) that pause with most packets missing, in virtual time (DESIGN 9.25).",
          "Reference reassembly model internal/ref; behaviour for contradictory totals / empty packet bodies is not demanded.", "4/C05"),
  "C06": ("exploration", "offline history checker over recorded client/callback event logs (R-reply oracle)",
-         "Simulated terminals drive a live server with every default ID, both versions, sub-packaged requests, unsupported IDs and >65536 pipelined requests; the recorded history (requests, replies, callbacks, stamps) is checked for exactly-once, correlation, order, consecutive platform serials and callback order. Added later: a part in which the terminal stops reading until a reply write is parked, stays silent 12.5 s and then checks the whole received stream frame by frame (DESIGN 9.25).",
+         "Simulated terminals drive a live server with every default ID, both versions, sub-packaged requests, unsupported IDs and >65536 pipelined requests; the recorded history (requests, replies, callbacks, stamps) is checked for exactly-once, correlation, order, consecutive platform serials and callback order. Added later: a part in which the terminal stops reading until a reply write is parked, stays silent 12.5 s and then checks the whole received stream frame by frame (DESIGN 9.25). A platform command whose body does not fit the length field, between replies (DESIGN 9.29).",
          "R-reply table (DESIGN Appendix C) is the trusted base; 'missing reply' is decided by FIFO order against a sentinel, not by timeouts.", "4/C06"),
  "C07": ("exploration", "round-trip law monitor over in-domain value generators",
          "For each two-way message type, in-domain values (all versions/dialects, list lengths 0..max, every terminal-parameter field by reflection) are encoded, parsed and re-encoded; helper laws (BCD, time, GBK, padding) are checked over enumerated domains. Added later: field sweeps (every numeric leaf field alone through all its values), the same law on used receivers, parse-then-assign encodes, long texts across block boundaries (DESIGN 9.20, 9.22). A part that sets time.Local to zones with daylight saving and sweeps the BCD time helpers over whole years (DESIGN 9.27).",
@@ -30,22 +30,22 @@ P = {
          "Location blocks and additional-information item streams are decoded through 0x0200, 0x0704 and 0x0801 and compared field by field with an independent transcription of the standard's tables; quick covers all single bits/pairs and every ID x length 0..40, thorough all 2^32 alarm and status words.",
          "Trusted base: internal/ref location model (DESIGN Appendix B).", "4/C08"),
  "C09": ("exploration", "snapshot-vs-later-state monitor (hook) and socket history with unique tokens under delay injection + race detector",
-         "Every delivered message is snapshotted at delivery and re-read after later reads and after close; over sockets, equal-length pipelined frames with unique tokens check that replies and reassembled data belong to their own request while the writer is delayed. Added later: connections that carry several fixed headers (phones, 2013/2019), each reply addressed like the message it answers (DESIGN 9.25). Connections that end with transfers unfinished whose packets the join / not-supported / unfiltered read callbacks still hold (DESIGN 9.27).",
+         "Every delivered message is snapshotted at delivery and re-read after later reads and after close; over sockets, equal-length pipelined frames with unique tokens check that replies and reassembled data belong to their own request while the writer is delayed. Added later: connections that carry several fixed headers (phones, 2013/2019), each reply addressed like the message it answers (DESIGN 9.25). Connections that end with transfers unfinished whose packets the join / not-supported / unfiltered read callbacks still hold (DESIGN 9.27). Messages handed to the write callback are kept by reference and re-checked after close (DESIGN 9.29).",
          "Hook reproduces the reader's buffer reuse; schedules limited to those produced by delay injection.", "4/C09"),
  "C10": ("fault_enumeration", "process-liveness + canary-session monitor with fsynced hostile-input journal",
-         "Child processes run both servers (default and README-style parsing handlers) while hostile connections (random, mutated, adversarial headers/bodies for every ID, lifecycle faults at every stage) are enumerated; canary sessions and post-attack probes must keep being served; a dead child is attributed via the journal and panic stack. Added later: parts for descriptor exhaustion, exhaustive short sub-package histories, and clients that stop reading (heartbeat flood, re-request flood, attachment server) with canary-progress as the witness that a timeout is not a slow machine (DESIGN 9.21, 9.22). Hostile frames with a broken escape behind well-formed escape pairs (DESIGN 9.27). Attachment canaries preceded by an impostor that announces the same files, flagged as re-uploads, with the completion content of the canary's connection checked (DESIGN 9.28).",
+         "Child processes run both servers (default and README-style parsing handlers) while hostile connections (random, mutated, adversarial headers/bodies for every ID, lifecycle faults at every stage) are enumerated; canary sessions and post-attack probes must keep being served; a dead child is attributed via the journal and panic stack. Added later: parts for descriptor exhaustion, exhaustive short sub-package histories, and clients that stop reading (heartbeat flood, re-request flood, attachment server) with canary-progress as the witness that a timeout is not a slow machine (DESIGN 9.21, 9.22). Hostile frames with a broken escape behind well-formed escape pairs (DESIGN 9.27). Attachment canaries preceded by an impostor that announces the same files, flagged as re-uploads, with the completion content of the canary's connection checked (DESIGN 9.28). One long descriptor exhaustion (6 s / 12 s) after which a new terminal must be served promptly (DESIGN 9.29).",
          "Faults are those a TCP client can cause; resource exhaustion is not claimed.", "4/C10"),
  "C11": ("exploration", "porcupine linearizability check of recorded join/leave/send histories against a sequential registry model",
          "Concurrent connect / duplicate / disconnect / reconnect / SendActiveMessage histories are recorded at the client boundary under delay injection and the race detector and checked per key against the sequential registry specification, plus callback-count side oracles. Added later: twin servers in one process, the all-zero phone, fragment-first connections, and a part that follows a stalled terminal to its leave callback, histories on a server that came up after failed Run() attempts (DESIGN 9.19-9.25). A part in which a duplicate of an online key arrives while the session manager is stalled by a terminal that stopped reading (DESIGN 9.27).",
          "Sequential spec in DESIGN Appendix F; porcupine timeouts are inconclusive.", "4/C11"),
  "C12": ("exploration", "exactly-once / correlation checker over tagged command histories",
-         "Unique tags in command bodies let the monitor pair each caller's result with the serial that carried its command; terminals answer in order, reversed, late, duplicated, with unknown serials or never, across serial wrap. Added later: a part with 12 s of uninterrupted heartbeats and commands on two terminals (DESIGN 9.25).",
+         "Unique tags in command bodies let the monitor pair each caller's result with the serial that carried its command; terminals answer in order, reversed, late, duplicated, with unknown serials or never, across serial wrap. Added later: a part with 12 s of uninterrupted heartbeats and commands on two terminals (DESIGN 9.25). Two commands with different timeouts outstanding on one terminal (DESIGN 9.29).",
          "Time is used only in the sound direction (no result after T + generous slack).", "4/C12"),
  "C13": ("fault_enumeration", "disconnect-point enumeration with crash capture and bounded-progress monitor under delay injection",
          "Enumerates disconnect points x queued/outstanding commands 0..4 x timeouts x FIN/RST with seeded delay injection at every channel operation; the child must stay alive and every SendActiveMessage call must return within timeout + slack. Added later: a part with ten-second scenarios in real time (writer held 6.5 s, commands without a timeout, a peer that stops reading until a write blocks, serial reuse with a command outstanding, empty-key sessions, timeouts in the middle of a steady upload) (DESIGN 9.21, 9.22, 9.25).",
          "Liveness restated as bounded progress; interleavings are those the injected delays produce (distinct traces counted).", "4/C13"),
  "C14": ("exploration", "virtual-time monitor of the re-request/expiry rules through the parser hook",
-         "All non-empty missing subsets for N<=9, random up to 255, idle just below/above 5 s, repeated rounds, partial resupply and the 60 s limit are driven with virtual ageing of the parser's timers and compared with a reference timer model. Added later: the first read after an idle spell completes no frame (DESIGN 9.25). Three overlapping transfers where one read ends the oldest and begins a new one (DESIGN 9.27).",
+         "All non-empty missing subsets for N<=9, random up to 255, idle just below/above 5 s, repeated rounds, partial resupply and the 60 s limit are driven with virtual ageing of the parser's timers and compared with a reference timer model. Added later: the first read after an idle spell completes no frame (DESIGN 9.25). Three overlapping transfers where one read ends the oldest and begins a new one (DESIGN 9.27). Transfers with 254 / 255 / 256 packets missing (DESIGN 9.29).",
          "Virtual time via hook Age(); wall-clock variant only in the sound direction.", "4/C14"),
  "C15": ("exploration", "upload-session monitor over net.Pipe (exact read partitions) with byte-exact content oracle",
          "Generated upload sessions (file sets, chunkings, orders, resends, dialects, marker bytes in names/IDs, all read partitions) run through the real connection loop; completion events are checked against what had been sent, final content against the original, and every control frame for exactly one correct reply. Added later: loopback TCP against one server per dialect, one connection with 66 500 control frames, a file of 32 MiB, a session of 12 s (thorough 65 s) in real time, clients that reset in the middle of a pipelined session next to polite ones (DESIGN 9.22, 9.25). Empty files and empty chunks (DESIGN 9.27).",
